@@ -240,8 +240,14 @@ func (x *Exec) randomOp(maxEnt int) (GenOp, bool) {
 		kind = 0
 	}
 	if x.Cfg.ResetP > 0 && len(x.queries) == 0 && x.rng.Intn(1000) < x.Cfg.ResetP {
-		if x.rng.Intn(2) == 0 {
+		switch x.rng.Intn(3) {
+		case 0:
 			return mk("Reset"), true
+		case 1:
+			// the world continues as the one its dump is loaded into
+			o := mk("Load")
+			o.Mode = []string{"fresh", "reset"}[x.rng.Intn(2)]
+			return o, true
 		}
 		o := mk("DumpLoad")
 		o.N = 1 + x.rng.Intn(3)
